@@ -394,3 +394,54 @@ theorem burn_native_refusal {s : BState} {m : PegMsg} (h : burn s m = .error (.e
           · cases h
 
 end Sif.EthBridge
+
+namespace Sif.EthBridge
+open Sif.Oracle Sif.Bank Sif.Spec.C06 Sif.Spec.C07 Sif.Generated
+
+/-- a successful ProcessLock / ProcessBurn of a message whose fee is not negative and whose amount is positive was payable
+    from the sender's balances before it -/
+theorem payable_of_move {s : BState} {m : PegMsg} {sp : Bool} {b : Bank} (h : pegMove s m sp = .ok b)
+    (hfee : 0 ≤ m.ceth) (hamt : 0 < m.amount) : payable m s.cethReceiver s.bank.bal = true := by
+  obtain ⟨hb, _⟩ := pegMove_ok h
+  have h1 := hb m.sender m.symbol
+  have h2 := hb m.sender cethSymbol
+  rw [debit_eq, credit_eq] at h1 h2
+  unfold payable
+  have e1 : at_ m.sender m.symbol m.amount.toNat m.sender m.symbol = m.amount.toNat := by simp [at_]
+  have e2 : at_ m.sender cethSymbol m.ceth.toNat m.sender cethSymbol = m.ceth.toNat := by simp [at_]
+  have le1 : at_ (feeAcct s.cethReceiver) cethSymbol m.ceth.toNat m.sender m.symbol
+      ≤ at_ m.sender cethSymbol m.ceth.toNat m.sender m.symbol := by
+    unfold at_
+    by_cases hc : m.symbol = cethSymbol
+    · simp only [hc, and_true, true_and, if_true]
+      split <;> omega
+    · simp [hc]
+  have c1 : m.amount.toNat ≤ s.bank.bal m.sender m.symbol := by omega
+  simp only [hfee, hamt, c1, decide_true, Bool.true_and]
+  by_cases hf : feeAcct s.cethReceiver = m.sender
+  · simp [hf]
+  · have z : at_ (feeAcct s.cethReceiver) cethSymbol m.ceth.toNat m.sender cethSymbol = 0 := by
+      unfold at_; simp [hf]; intro e; exact (hf e.symm).elim
+    have e3 : at_ m.sender m.symbol m.amount.toNat m.sender cethSymbol = if m.symbol = cethSymbol then m.amount.toNat else 0 := by
+      unfold at_
+      by_cases hc : m.symbol = cethSymbol
+      · simp [hc]
+      · have : ¬ cethSymbol = m.symbol := fun e => hc e.symm
+        simp [hc, this]
+    have c2 : m.ceth.toNat + (if m.symbol = cethSymbol then m.amount.toNat else 0) ≤ s.bank.bal m.sender cethSymbol := by
+      rw [← e3]; omega
+    simp [hf, c2]
+
+theorem lockValidate_spec {m : PegMsg} (h : lockValidate m = true) : 0 ≤ m.ceth ∧ 0 < m.amount := by
+  unfold lockValidate at h
+  simp only [Bool.and_eq_true, decide_eq_true_eq] at h
+  have : (0 : Int) ≤ (BridgeConsts.lockGasCost : Int) := Int.natCast_nonneg _
+  exact ⟨by omega, h.1.1.2⟩
+
+theorem burnValidate_spec {m : PegMsg} (h : burnValidate m = true) : 0 ≤ m.ceth ∧ 0 < m.amount := by
+  unfold burnValidate at h
+  simp only [Bool.and_eq_true, decide_eq_true_eq] at h
+  have : (0 : Int) ≤ (BridgeConsts.burnGasCost : Int) := Int.natCast_nonneg _
+  exact ⟨by omega, h.1.1.1.2⟩
+
+end Sif.EthBridge
